@@ -190,7 +190,7 @@ pub fn run() -> i32 {
     quiet_panics();
     let mut ctx = Ctx::new("C06", "fault_enumeration");
     let seed = ctx.seed;
-    let maxlen = ctx.tier.pick(300usize, 1100);
+    let maxlen = ctx.tier.pick(600usize, 2100);
     let sds = seeds(seed);
     ctx.rule = format!("positive product: {} seeds (value alphabet + RFC 8032 test seeds) x every message length 0..={} (+1023,1024,1025,4096 thorough) x 4 content classes x {{pure detached, pure combined, pre-hashed incremental}} x {{classic, SigningKeyPair, IncrementalSigner}}: bytes == libsodium, deterministic, verifies everywhere. negative single-fault enumeration on base signatures (3 seeds x lengths {{0,1,32,65}} x pure/pre-hashed): every bit of message, signature and public key; S+kL for every k with S+kL < 2^256; raw S in {{L-1,L,L+1,2^252,2^256-1}}; R x A over the complete small-order encoding table (14 x 14) x S in {{0,1,r}}; non-canonical y in [p,p+18] as R and as A; mode cross-overs (signature of the other mode over M, and over SHA-512(M) / of SHA-512(M)); combined form truncated to every length < 64; accept/reject must equal libsodium and be reject for every mutation; non-trivial = case executed in both implementations", sds.len(), maxlen);
     ctx.assume("libsodium 1.0.18 (strict, non-COMPAT) is the reference verifier");
